@@ -29,7 +29,7 @@ import z3
 
 ROUTED = {"len": "_pyvc_len", "isinstance": "_pyvc_isinstance", "int": "_pyvc_int",
           "min": "_pyvc_min", "max": "_pyvc_max", "bool": "_pyvc_bool", "str": "_pyvc_str",
-          "abs": "_pyvc_abs", "bytes": "_pyvc_bytes"}
+          "abs": "_pyvc_abs", "bytes": "_pyvc_bytes", "range": "_pyvc_range"}
 
 
 class _Assigned(ast.NodeVisitor):
@@ -78,6 +78,18 @@ class Cutter(ast.NodeTransformer):
         if self.route and isinstance(node.func, ast.Name) and node.func.id in ROUTED:
             self.log.append("line %d: %s(...) -> %s(...)" % (node.lineno, node.func.id, ROUTED[node.func.id]))
             node.func = ast.Name(id=ROUTED[node.func.id], ctx=ast.Load())
+        return node
+
+    def visit_Assign(self, node):
+        self.generic_visit(node)
+        if (self.route and len(node.targets) == 1 and isinstance(node.targets[0], ast.Name)
+                and ((isinstance(node.value, ast.Dict) and not node.value.keys)
+                     or (isinstance(node.value, ast.List) and not node.value.elts))):
+            kind = "dict" if isinstance(node.value, ast.Dict) else "list"
+            self.log.append("line %d: %s = %s literal -> _pyvc_new%s(%r) (sort decided by the contract)" % (
+                node.lineno, node.targets[0].id, "{}" if kind == "dict" else "[]", kind, node.targets[0].id))
+            node.value = ast.copy_location(ast.Call(func=ast.Name(id="_pyvc_new" + kind, ctx=ast.Load()),
+                                                    args=[ast.Constant(value=node.targets[0].id)], keywords=[]), node.value)
         return node
 
     def _loop(self, node, is_for):
@@ -171,6 +183,37 @@ class SeqCursor:
         return SInt(self.idx)
 
 
+class SRange:
+    """range(lo, hi) with symbolic bounds (step 1)."""
+    def __init__(self, lo, hi):
+        self.lo, self.hi = lo, hi
+
+    def __iter__(self):
+        c = cx()
+        i = 0
+        while True:        # bounded exploration only (no loop spec): forks on the bound
+            if not c.branch(self.lo + i < self.hi):
+                return
+            yield SInt(z3.simplify(self.lo + i))
+            i += 1
+
+
+class RangeCursor:
+    def __init__(self, r):
+        self.lo, self.hi, self.idx = r.lo, r.hi, z3.IntVal(0)
+
+    def has_next(self):
+        return SBool(z3.simplify(self.lo + self.idx < self.hi))
+
+    def next(self):
+        v = SInt(z3.simplify(self.lo + self.idx))
+        self.idx = z3.simplify(self.idx + 1)
+        return v
+
+    def pos(self):
+        return SInt(self.idx)
+
+
 class ListCursor:
     def __init__(self, xs):
         self.xs, self.i = list(xs), 0
@@ -190,8 +233,8 @@ class ListCursor:
 class LoopSpec:
     """inv(c, L, old) -> bool-ish;  havoc(c, L, names) -> dict of replacement locals (optional);
     fields(c, L) mutates heap/object fields to fresh values (optional)."""
-    def __init__(self, inv, havoc=None, fields=None, name=None):
-        self.inv, self.havoc, self.fields, self.name = inv, havoc, fields, name
+    def __init__(self, inv, havoc=None, fields=None, name=None, ghost_step=None):
+        self.inv, self.havoc, self.fields, self.name, self.ghost_step = inv, havoc, fields, name, ghost_step
 
 
 def _fresh_like(c, name, v):
@@ -228,6 +271,12 @@ def make_hooks(c, unit_name, loops, old):
 
     def havoc(k, L, names):
         spec = loops[k]
+        # every symbolic container visible at the loop head may be mutated in place by the body
+        # (subscript stores, method calls, nested closures): havoc them all, in place, first
+        from .heap import havoc_container
+        for n, v in list(L.items()):
+            if isinstance(v, (SDict, SSeq)):
+                havoc_container(c, n, v)
         if spec.fields:
             spec.fields(c, L)
         repl = spec.havoc(c, L, names) if spec.havoc else {}
@@ -243,23 +292,37 @@ def make_hooks(c, unit_name, loops, old):
             out.append(v)
             L2[n] = v
         itn = "_pyvc_it_%d" % k
-        if itn in L and isinstance(L[itn], SeqCursor):
+        if itn in L and isinstance(L[itn], (SeqCursor, RangeCursor)):
             L[itn].idx = z3.Int(c.fresh_name("h_it%d" % k))
             c.assume_z3(z3.And(L[itn].idx >= 0, L[itn].lo + L[itn].idx <= L[itn].hi))
+
         c.assume_feasible(spec.inv(c, L2, old))
         return tuple(out) if names else None
 
     def back(k, L):
         spec = loops[k]
+        if spec.ghost_step:
+            spec.ghost_step(c, L)
         c.oblige("loop%d/preserve" % k, spec.inv(c, L, old), kind="loop-preserve")
         raise core.PathEnd()
 
     def it(k, e):
         if isinstance(e, SSeq):
             return SeqCursor(e, z3.IntVal(0))
+        if isinstance(e, SRange):
+            return RangeCursor(e)
         return ListCursor(e)
 
-    return {"_pyvc_entry": entry, "_pyvc_havoc": havoc, "_pyvc_back": back, "_pyvc_iter": it}
+    def newdict(name):
+        f = c.ghost.get("literal_sorts", {}).get(name)
+        return f() if f else {}
+
+    def newlist(name):
+        f = c.ghost.get("literal_sorts", {}).get(name)
+        return f() if f else []
+
+    return {"_pyvc_entry": entry, "_pyvc_havoc": havoc, "_pyvc_back": back, "_pyvc_iter": it,
+            "_pyvc_newdict": newdict, "_pyvc_newlist": newlist}
 
 
 def p_len(x):
@@ -318,6 +381,16 @@ def p_max(*a, **kw):
     return max(*a, **kw)
 
 
+def p_range(*a):
+    if any(isinstance(v, Proxy) for v in a):
+        if len(a) == 1:
+            return SRange(z3.IntVal(0), _iz(a[0]))
+        if len(a) == 2:
+            return SRange(_iz(a[0]), _iz(a[1]))
+        raise core.Unsupported("range() with a symbolic step")
+    return range(*a)
+
+
 def p_bool(x=False):
     if isinstance(x, SBool):
         return x
@@ -353,7 +426,8 @@ def p_bytes(x=b"", *a):
 
 HELPERS = {"_pyvc_len": p_len, "_pyvc_isinstance": p_isinstance, "_pyvc_int": p_int,
            "_pyvc_min": p_min, "_pyvc_max": p_max, "_pyvc_bool": p_bool, "_pyvc_str": p_str,
-           "_pyvc_abs": p_abs, "_pyvc_bytes": p_bytes}
+           "_pyvc_abs": p_abs, "_pyvc_bytes": p_bytes, "_pyvc_range": p_range,
+           "_pyvc_newdict": lambda name: {}, "_pyvc_newlist": lambda name: []}
 
 
 def get_function(module, qualname):
